@@ -7,6 +7,7 @@ mod families;
 mod lockstep;
 mod poschecks;
 mod report;
+mod search;
 mod space;
 mod static_checks;
 
@@ -19,6 +20,10 @@ fn usage() -> ! {
 
 fn main() {
     let args: Vec<String> = std::env::args().collect();
+    if args.len() == 4 && args[1] == "c19-child" {
+        search::c19_child(&args[2], &args[3]);
+        return;
+    }
     if args.len() < 3 || args[1] != "check" {
         usage();
     }
@@ -48,7 +53,12 @@ fn main() {
     let code = match id.as_str() {
         "C01" => lockstep::run(&ctx, true, false),
         "C02" => lockstep::run(&ctx, false, true),
+        "C03" => search::run_c03(&ctx),
+        "C04" => search::run_c04(&ctx),
         "C05" => poschecks::run_c05(&ctx),
+        "C06" => search::run_c06(&ctx),
+        "C17" => search::run_c17(&ctx),
+        "C19" => search::run_c19(&ctx),
         "C08" => poschecks::run_c08(&ctx),
         "C09" => static_checks::run_c09(&ctx),
         "C10" => poschecks::run_c10(&ctx),
